@@ -2479,6 +2479,15 @@ hsStateDetermined:
  */
                     return MATRIXSSL_SUCCESS;
                 }
+                if (hsLen != ssl->fragLenStored)
+                {
+                    /* Every fragment carries the length of the whole message:
+                       the reassembly buffer was sized from the first one and
+                       the reassembled message is parsed up to this length. */
+                    ssl->err = SSL_ALERT_DECODE_ERROR;
+                    psTraceErrr("Fragments disagree on the message length\n");
+                    return MATRIXSSL_ERROR;
+                }
 /*
                 Still could be a duplicate fragment.  Make sure we haven't
                 seen it before.  If we haven't this routine also returns
@@ -2514,6 +2523,27 @@ hsStateDetermined:
                     psTraceIntDtls("Fragment outside range [0...%d]: ignored\n",
                                    (int) hsLen);
                     return MATRIXSSL_ERROR;
+                }
+
+/*
+                The stored fragments are counted towards the message length
+                and hashed in offset order as a gap-free sequence: an empty
+                fragment, or one that overlaps a stored fragment (it is not a
+                plain duplicate, those were recognised above), is not stored.
+ */
+                if (fragLen == 0)
+                {
+                    return MATRIXSSL_SUCCESS;
+                }
+                for (rc = 0; rc < j; rc++)
+                {
+                    if (fragOffset < ssl->fragHeaders[rc].offset +
+                            (int32) ssl->fragHeaders[rc].fragLen &&
+                        ssl->fragHeaders[rc].offset <
+                            fragOffset + (int32) fragLen)
+                    {
+                        return MATRIXSSL_SUCCESS;
+                    }
                 }
 
 /*
